@@ -73,6 +73,16 @@ func (vc *VC) call(st *State, fr *Frame, x *ssa.Call, k func(*State, *Frame)) {
 				vc.oblige(st, "at-call."+callee.Name(), labelOr(cl.Label, i+1), t.S, &cl, site)
 			}
 		}
+		if fr.top && st.tr != nil {
+			if r := vc.recByFn(callee); r != nil {
+				idx := vc.trRecord(st, r, args)
+				inner := cont
+				cont = func(st *State, fr *Frame, res T) {
+					vc.trResult(st, r, idx, res)
+					inner(st, fr, res)
+				}
+			}
+		}
 		var bindings []T
 		if mc, ok := c.Value.(*ssa.MakeClosure); ok {
 			for _, b := range mc.Bindings {
@@ -336,8 +346,40 @@ func (vc *VC) dynCall(st *State, fr *Frame, x *ssa.Call, fv T, args []T, cont fu
 	idx := st.callsN
 	st.callsN = app("+", st.callsN, "1")
 	preCall := st.clone()
-	defer func() {}()
-	if blk.HasUse("dyncalls-pure") || (blk.Parent != nil && blk.Parent.HasUse("dyncalls-pure")) {
+	// contract of the named function type of the callee value, if it has one
+	var fb *Block
+	var fbPkg *types.Package
+	fbEnv := newEnv(nil)
+	if n, ok := x.Call.Value.Type().(*types.Named); ok && n.Obj().Pkg() != nil {
+		key := shortPkg(n.Obj().Pkg().Path()) + "." + n.Obj().Name()
+		if b, ok := vc.P.Blocks[key]; ok && b.Kind == "functype" {
+			fb, fbPkg = b, n.Obj().Pkg()
+			for k, a := range args {
+				fbEnv.bind(fmt.Sprintf("arg%d", k), a, x.Call.Args[k].Type())
+			}
+		}
+	}
+	if fb != nil {
+		for i, c := range fb.Requires {
+			t, err := vc.evalIn(fbPkg, fbEnv, st, st, c.Text)
+			if err != nil {
+				vc.fail(fmt.Errorf("%s:%d: %v", c.File, c.Line, err))
+				return
+			}
+			cl := c
+			vc.oblige(st, "requires@"+fb.Name, labelOr(c.Label, i+1), t.S, &cl, site)
+		}
+	}
+	if fb != nil && fb.HasMod {
+		// the callee is a value of a function type under contract: every
+		// function converted to that type proves the type's frame (scan
+		// obligation functype/<T>), so only its targets change here
+		if err := vc.havocTargets(st, preCall, fb, fbPkg, fbEnv); err != nil {
+			vc.fail(err)
+			return
+		}
+		vc.bumpMark(st)
+	} else if blk.HasUse("dyncalls-pure") || (blk.Parent != nil && blk.Parent.HasUse("dyncalls-pure")) {
 		// assumption (listed): the function values called here are pure
 		vc.note("assumed: the function values called dynamically in this function have no effect on the heap (dyncalls-pure)")
 		vc.bumpMark(st)
@@ -372,20 +414,20 @@ func (vc *VC) dynCall(st *State, fr *Frame, x *ssa.Call, fv T, args []T, cont fu
 		vc.assume(st, eq(nr.S, app("store", st.callsR, idx, r.S)))
 		st.callsR = nr.S
 	}
-	// function-type contract (by named type of the callee value)
-	if n, ok := x.Call.Value.Type().(*types.Named); ok && n.Obj().Pkg() != nil {
-		key := shortPkg(n.Obj().Pkg().Path()) + "." + n.Obj().Name()
-		if fb, ok := vc.P.Blocks[key]; ok && fb.Kind == "functype" {
-			env := newEnv(nil)
-			env.bind("result", r, sig.Results().At(0).Type())
-			for _, c := range fb.Ensures {
-				t, err := vc.evalIn(n.Obj().Pkg(), env, st, st, c.Text)
-				if err != nil {
-					vc.fail(fmt.Errorf("%s:%d: %v", c.File, c.Line, err))
-					return
-				}
-				vc.assume(st, t.S)
+	if fb != nil {
+		if sig.Results().Len() == 1 {
+			fbEnv.bind("result", r, sig.Results().At(0).Type())
+		}
+		for _, c := range fb.Ensures {
+			if vc.mentionsTrace(c.Text) {
+				continue
 			}
+			t, err := vc.evalIn(fbPkg, fbEnv, st, preCall, c.Text)
+			if err != nil {
+				vc.fail(fmt.Errorf("%s:%d: %v", c.File, c.Line, err))
+				return
+			}
+			vc.assume(st, t.S)
 		}
 	}
 	// `at call dyn: assume E` - a stated assumption about what the function
@@ -826,6 +868,9 @@ func (vc *VC) applyContract(st *State, fr *Frame, blk *Block, callee *ssa.Functi
 		vc.closureByRef[res.S] = ci
 	}
 	for _, c := range blk.Ensures {
+		if vc.mentionsTrace(c.Text) {
+			continue // describes the callee's own activation; nothing the caller may use
+		}
 		t, err := vc.evalIn(pkg, env2, st, pre, c.Text)
 		if err != nil {
 			vc.fail(fmt.Errorf("%s:%d: %v", c.File, c.Line, err))
@@ -908,7 +953,8 @@ func (vc *VC) modTargets(blk *Block, pkg *types.Package, env *Env, pre *State) (
 				for _, l := range vc.leaves(u.Elem()) {
 					l := l
 					out = append(out, modTarget{key: l.key, region: func(a string) string {
-						return eq(app("root", a), app("root", arr))
+						// a nil slice has no cells
+						return and(eq(app("root", a), app("root", arr)), not(eq(arr, "0")))
 					}})
 				}
 			case *types.Map:
